@@ -62,9 +62,10 @@ def coq_sources():
             if line.endswith('.v'):
                 out.add(os.path.join(COQ, line))
     out.add(os.path.join(EXTRACT, 'Extract.v'))
-    for f in os.listdir(os.path.join(COQ, 'props')):
-        if f.endswith('.v'):
-            out.add(os.path.join(COQ, 'props', f))
+    for sub in ('props', 'bridge'):
+        for f in os.listdir(os.path.join(COQ, sub)):
+            if f.endswith('.v'):
+                out.add(os.path.join(COQ, sub, f))
     return sorted(out)
 
 
@@ -226,6 +227,51 @@ def tie_b(res, workdir):
     res.oblige('Tie B: tables regenerated from source and compiled', True)
     res.notes['tie_B'] = f'regenerated: {len(mt)} message classes, {len(kt["consts"])} key constants'
     return mt, kt, cs, [(gen, 'UbxGen')]
+
+
+def tie_b_kernels(res, workdir, parts=('ck', 'ubx', 'nmea')):
+    """Tie B for code kernels: translate the requested kernels (ck = Checksum, ubx = UbxParser, nmea = NmeaParser) of
+    /repo's current source to Gallina (py/vlib/translate.py), compile, and compile the bridge lemmas coq/bridge/Bridge*.v
+    (generated = model). Translator rejection (source shape outside the accepted subset): recorded as unavailable, NO
+    alarm — the verdict rests on Tie A. Bridge failure: broken proof obligation (violation without failing input unless
+    Tie A finds one)."""
+    from . import translate
+    if 'ubx' in parts and 'ck' not in parts:
+        parts = ('ck',) + tuple(parts)
+    gen = os.path.join(workdir, 'genk')
+    os.makedirs(gen, exist_ok=True)
+    try:
+        translate.emit_kernels_v(os.path.join(gen, 'Kernels.v'), parts)
+    except translate.TranslateError as e:
+        res.notes['tie_B_kernels'] = f'unavailable: {e}'
+        return False
+    except Exception as e:  # source no longer importable the way the translator expects
+        res.notes['tie_B_kernels'] = f'unavailable: {e!r}'
+        return False
+    xq = [(gen, 'UbxGen')]
+    rc, out = coqc(os.path.join(gen, 'Kernels.v'), gen, extra_q=xq)
+    if rc:
+        res.notes['tie_B_kernels'] = 'unavailable: generated Kernels.v does not type-check: ' + out[-400:]
+        return False
+    allok = True
+    for part, fname in (('ck', 'BridgeCk.v'), ('ubx', 'BridgeUbx.v'), ('nmea', 'BridgeNmea.v')):
+        if part not in parts:
+            continue
+        dst = os.path.join(gen, fname)
+        shutil.copy(os.path.join(COQ, 'bridge', fname), dst)
+        rc, out = coqc(dst, gen, extra_q=xq)
+        ok = rc == 0
+        allok = allok and ok
+        res.oblige(f'Tie B kernels: bridge lemmas {fname} (source translated to Gallina = model)', ok, out)
+        if ok:
+            bad = [a for a in parse_assumptions(out) if not a.startswith('Closed under')]
+            if bad:
+                raise MachineryFault('bridge lemma depends on axioms: ' + str(bad[:2]))
+        else:
+            res.violation(f'Tie B: the {part} kernel translated from the current source is no longer provably equal to the model',
+                          {'property': res.prop, 'broken': 'coq/bridge/' + fname, 'coqc_output': out[-2500:]}, 'bridge-' + part, False)
+    res.notes['tie_B_kernels'] = ('regenerated from source and proved equal to the model: ' + ','.join(parts)) if allok else 'bridge lemmas FAILED'
+    return allok
 
 
 # ------------------------------------------------------------------ model driver
